@@ -60,7 +60,7 @@ def mirror(tr, exp):
     return None
 
 
-def run_agm(pid, tier, seed, fams, mutants, rule, assumptions, sample=None, replicas=1, write=True, level_lemma=False, random_n=0):
+def run_agm(pid, tier, seed, fams, mutants, rule, assumptions, sample=None, replicas=1, write=True, level_lemma=False, random_n=0, micro=False):
     t0 = time.time()
     lemma = None
     if level_lemma:
@@ -118,12 +118,14 @@ def run_agm(pid, tier, seed, fams, mutants, rule, assumptions, sample=None, repl
         for r in range(replicas):
             d = dict(c)
             d["variant"] = (v0 + 11 * r) % 30
+            # odd replicas of multi-thread cases: threads are frozen in the middle of machine steps (sched.py, MICRO MODE)
+            d["micro"] = (1 + seed * 100003 + i) if (micro and r % 2 == 1 and len(c["prog"]["threads"]) > 1) else 0
             cases.append(d)
     for i, c in enumerate(cases):
         c["id"] = i + 1
     # replay (the exported model result / den stay on this side; the worker gets id + prog + variant)
-    work = [{"id": c["id"], "prog": c["prog"], "variant": c["variant"], "schedule": c["sched"] if len(c["prog"]["threads"]) > 1 else []}
-            for c in cases]
+    work = [{"id": c["id"], "prog": c["prog"], "variant": c["variant"], "micro": c.get("micro", 0),
+             "schedule": c["sched"] if len(c["prog"]["threads"]) > 1 else []} for c in cases]
     traces, files = vlib.parallel_replay("agm_replay.py", work, nproc=14, tag="agm")
     accepted, g2, d2, _w, inv = vlib.parallel_validate("TraceAGM", files, cfg=TRACE_CFG, njvm=14)
     if inv:
@@ -175,6 +177,15 @@ def run_agm(pid, tier, seed, fams, mutants, rule, assumptions, sample=None, repl
         "samples": [{"prog": exp_by_id[i]["prog"], "meaning": exp_by_id[i]["den"], "observed": by_id[i]["obs"], "trace_ids": by_id[i]["ids"]} for i in s_ids],
         "known_findings_reobserved": verdict.known_hits,
     }
+    if micro:
+        ms = [t["micro"] for t in traces if t.get("micro")]
+        coverage["mid_step_preemption"] = {"schedules_replayed_with_threads_frozen_inside_autograd_code": len(ms),
+                                           "freezes_inside_a_machine_step": sum(m["frozen_mid_step"] for m in ms),
+                                           "steps_that_completed_before_their_freeze_point": sum(m["ran_out_of_turn"] for m in ms)}
+        # (only meaningful when every thread ran to completion: a thread that died early takes fewer steps than scheduled)
+        mism = [t["id"] for t in traces if t.get("sched_mismatch") and all(o.get("k") == "val" for o in t["obs"])]
+        if mism:
+            raise vlib.MachineryError("baton scheduler: executed step order differs from the exported schedule in macro mode (cases %s)" % mism[:5])
     if lemma:
         coverage["level_lemma_tlaps"] = lemma
     if not write:
@@ -202,11 +213,19 @@ def c08(tier, seed, replay=None):
     q = tier == "quick"
     fams = [("nest", 2, None), ("nestq", 3, 1000) if q else ("nest", 3, None), ("fault", 2, None), ("ho", 3 if q else 4, None)]
     muts = [("nest", 2, MUT_GEQ), ("nest", 2, MUT_DEP), ("fault", 2, MUT_RESET)]
-    return run_agm("C08", tier, seed, fams, muts,
+    t0 = time.time()
+    v1, cov = run_agm("C08", tier, seed, fams, muts,
                    "nest family: every nesting of depth 2 (and 3) x every mode assignment x every closure pattern (which enclosing variables the "
                    "level's body mentions, own variable to the power 0..2, inner point own / own+enclosing, inner result added or multiplied in); "
                    "fault family: nested differentiation after a caught inner failure; distinct_nontrivial = distinct programs with a defined meaning",
-                   ASSUME, level_lemma=True, random_n=400 if q else 5000)
+                   ASSUME, level_lemma=True, random_n=400 if q else 5000, write=False)
+    # one nesting level through the built-in rules, at a cotangent / tangent that is a traced ZERO of the enclosing differentiation
+    from checks import rules
+    v2, cov2 = rules.c08_rules(tier, seed)
+    rules.merge(v1, cov, v2, cov2, "nested_through_rules_at_zero_cotangent")
+    rc = v1.finish()
+    vlib.write_evidence("C08", tier, seed, "model_checking", cov, ASSUME + rules.ASSUME, time.time() - t0, len(v1.violations))
+    return rc
 
 
 def c07(tier, seed, replay=None):
@@ -256,6 +275,9 @@ def c14(tier, seed, replay=None):
     cov["traces_validated_against_impl"] += nd["rows"]
     cov["evaluations"] += nd["rows"]
     cov["nondifferentiable_function_set"] = nd
+    from checks import rules
+    v3, cov3 = rules.c14_rules(tier, seed)
+    rules.merge(v1, cov, v3, cov3, "declared_zero_on_array_arguments")
     rc = v1.finish()
     vlib.write_evidence("C14", tier, seed, "model_checking", cov, ASSUME + ["the non-differentiable set is autograd's own nograd_functions list plus the "
                         "shape/type queries; each is called with up to two templates NumPy accepts"], time.time() - t0, len(v1.violations))
@@ -292,7 +314,8 @@ def c17(tier, seed, replay=None):
         return _replay("C17", replay)
     q = tier == "quick"
     fams = [("ext1", 3 if q else 4, 1500 if q else None), ("ext2", 2 if q else 3, 1200 if q else 8000), ("ckpt", 2, None)]
-    return run_agm("C17", tier, seed, fams, [],
+    t0 = time.time()
+    v1, cov = run_agm("C17", tier, seed, fams, [],
                    "ext1: product primitive of arity 1..3 (thorough 4) x every non-empty subset of differentiated positions x every rule table over "
                    "{rule, None, missing} x keyword argument x both modes; ext2: arguments assigned to trace levels {inner variable, enclosing "
                    "variable, constant} under a depth-2 nesting whose outer level differentiates the inner derivative (rules are traced); each "
@@ -300,7 +323,14 @@ def c17(tier, seed, replay=None):
                    "defjvp / defjvp_argnum / def_linear / 'same' (rotating with the case index); ckpt: checkpoint(body)(args) must equal the plain "
                    "call in value and in derivatives of order 1 and 2, incl. nested checkpoints and a traced closure",
                    ASSUME + ["the user rule computes g * scale * prod(other args) + (ans - scale*prod(args)) * g, so a wrong ans or wrong argument "
-                             "values handed to the rule change the result"], replicas=3 if q else 6)
+                             "values handed to the rule change the result"], replicas=3 if q else 6, write=False)
+    # the same contract on ARRAY arguments of different shapes (rule-table machinery, RuleSpace!ExtendFamily, judged by Contract!C17)
+    from checks import rules
+    v2, cov2 = rules.c17_rules(tier, seed)
+    rules.merge(v1, cov, v2, cov2, "array_arguments_of_different_shapes")
+    rc = v1.finish()
+    vlib.write_evidence("C17", tier, seed, "model_checking", cov, ASSUME + rules.ASSUME, time.time() - t0, len(v1.violations))
+    return rc
 
 
 def c20(tier, seed, replay=None):
@@ -323,14 +353,17 @@ def c20(tier, seed, replay=None):
     if r.ok:
         raise vlib.MachineryError("the global-counter variant (pinned defect) was not rejected by the thread model")
     extra.append({"model_mutant": "CounterScope=global", "rejected_by": r.violated or "evaluation error"})
-    fams = [("threads2small", 2, 1500 if q else None)] + ([] if q else [("threads2med", 2, 20000)])
+    fams = [("threads2small", 2, 1000 if q else None)] + ([] if q else [("threads2med", 2, 20000)])
     rc = run_agm("C20", tier, seed, fams, [],
                  "two (thorough: three) threads, at least one of them nested; every interleaving of their machine steps is model-checked "
                  "(states merged by a VIEW); for the small pairs every distinct schedule is exported by TLC and replayed with real threads "
                  "under a strict baton scheduler that switches threads exactly at the machine-step boundaries; each thread's result must "
                  "equal its run-alone meaning", ASSUME + [
-                     "real threads are serialised by the baton scheduler: preemption inside autograd's own code is not explored here",
-                     "thread-interleaving model: %s" % json.dumps(extra)])
+                     "real threads are serialised by the baton scheduler (exactly one runs at a time); every schedule is replayed twice: switching at the "
+                     "machine-step boundaries, and with the switching thread frozen a pseudo-random number of line events *inside* its next step "
+                     "(inside tracer.trace / primitive.f_wrapped / backward_pass / a rule) while the others take their steps; truly simultaneous "
+                     "execution of two bytecodes is not explored",
+                     "thread-interleaving model: %s" % json.dumps(extra)], replicas=2, micro=True)
     return rc
 
 
